@@ -83,7 +83,8 @@ def run_p1(files, lang, tag, root_name="proj"):
 # =====================================================================================================================
 # rename-pair comparison (second clause)
 # =====================================================================================================================
-def compare_twins(lang, vA, rowsA, vB, rowsB, renamed_lines, old, new, renamed_fields=(), skip_stmts=(), cross=None, strip=""):
+def compare_twins(lang, vA, rowsA, vB, rowsB, renamed_lines, old, new, renamed_fields=(), skip_stmts=(), cross=None, strip="",
+                  qualify=None):
     """Position-wise comparison of the P1 symbol tables of a program and its alpha-renamed twin.
     renamed_lines: {0-based line} of the renamed occurrences (one occurrence of a name per line); renamed_fields: field names of
     class-body reads `uN = name` (their GIR rows carry the class statement's line); skip_stmts: statements of occurrences that
@@ -133,7 +134,7 @@ def compare_twins(lang, vA, rowsA, vB, rowsB, renamed_lines, old, new, renamed_f
             ren = (line is not None and int(line) in renamed_lines and row.get("operation") != "field_write") or \
                 (row.get("operation") == "field_write" and row.get("field") in renamed_fields)
             nm_ = r["name"][len(strip):] if strip and r["name"].startswith(strip) else r["name"]
-            out.append((pos.get(sid), nm_, tgt, None if line is None else int(line), ren, sid in skip_stmts))
+            out.append((pos.get(sid), nm_, tgt, None if line is None else int(line), ren, sid in skip_stmts, sid))
         return out
     ta, tb = table(rowsA, posA, vA), table(rowsB, posB, vB)
     if len(ta) != len(tb):
@@ -148,7 +149,8 @@ def compare_twins(lang, vA, rowsA, vB, rowsB, renamed_lines, old, new, renamed_f
             return f"rename:{lang}:s2space-symbol-name", f"after renaming {old}->{new} the symbol at statement #{x[0]} is called {y[1]!r}, expected {want!r}", len(ta)
         if x[2] != y[2]:
             kind = lambda t: t[2] if t[0] in ("decl", "decl-in") else t[0]
-            return (f"rename:{lang}:s2space-symbol_id({kind(x[2])}->{kind(y[2])})",
+            q_ = qualify(x[6]) if qualify else ""       # (a cause qualifier computed from where the statement sits, not a skip)
+            return ((f"rename:{lang}:s2space-symbol_id{q_}" if q_ else f"rename:{lang}:s2space-symbol_id({kind(x[2])}->{kind(y[2])})"),
                     f"renaming {old}->{new} changed the binding of {x[1]!r} at statement #{x[0]} (line {x[3]}): {x[2]} -> {y[2]}", len(ta))
     return None, "", len(ta)
 
@@ -207,7 +209,14 @@ def py_prepare_text(text, meta, seed=None):
         csid = next(iter(callee))
         target = sym.scopes[csid]
         if c["kind"] == "mcall":
-            target = sym.scopes[target["parent"]]
+            # K.L().m(...): the bare name is the outermost class K; the method that ran must lie inside it
+            q = target["parent"]
+            while q is not None and q != c["cls"]:
+                q = sym.scopes[q]["parent"]
+            if q is None:
+                prog["faults"].append(f"call {ctag}: the method that ran does not belong to class {c['name']}")
+                continue
+            target = sym.scopes[c["cls"]]
         dyn_owner = sym.owner(target["parent"], target["name"])
         st = sym.owner(c["scope"], c["name"])
         if dyn_owner != st or st == "?" or target["name"] != c["name"]:
@@ -235,6 +244,17 @@ def py_prepare_text(text, meta, seed=None):
                     "site": B.py_site_kind(sym, g["scope"]) + f"({g['kind']}-stmt)(the-statement-itself)",
                     "decl": B.py_decl_kind(sym, meta, g["scope"], st, g["name"]),
                     "csite": B.py_coarse_site(sym, g["scope"], g["name"]) + "(the-statement-itself)", "cdecl": B.py_coarse_decl(sym, g["scope"], st)}
+    for key, r_ in meta["occ"].items():
+        # out("uN", K.uN) after a class statement: the bare class name K is read there (symtable is its oracle; the attribute
+        # read succeeded at run time). In a class body lian drops the statement, so only function/module level ones are judged.
+        if not key.startswith("ru") or sym.scopes[r_["scope"]]["kind"] == "class":
+            continue
+        st = sym.owner(r_["scope"], r_["name"])
+        if st in ("?", None) or key[1:] not in obs:
+            continue
+        occ[key] = {"kind": "reveal", "field": key[1:], "name": r_["name"], "line": r_["line"], "scope": r_["scope"], "owner": st,
+                    "site": B.py_site_kind(sym, r_["scope"]) + "(class-name-read)", "decl": B.py_decl_kind(sym, meta, r_["scope"], st, r_["name"]),
+                    "csite": B.py_coarse_site(sym, r_["scope"], r_["name"]), "cdecl": B.py_coarse_decl(sym, r_["scope"], st)}
     prog["occ"] = occ
     prog["owners"] = {k: sym.owner(o["scope"], o["name"]) for k, o in meta["occ"].items()}
     return prog
@@ -274,7 +294,7 @@ def py_expected_ids(view, meta, owner_sid, name):
     return sorted(int(r["stmt_id"]) for r in view.decl_rows(name) if view.owner_scope(int(r["stmt_id"])) == og), og
 
 
-def py_signature(lang, csite, cdecl, what, chosen_left=""):
+def py_signature(lang, csite, cdecl, what, chosen_left="", reparented=False):
     """Mechanism signature of one failing occurrence. Three root causes seen on the pinned tree get ONE signature each (the
     components that do not matter for the cause are written `*`); everything else keeps the full three-part form."""
     if "(declaration-left-in-catch_clause-body)" in cdecl:
@@ -282,11 +302,24 @@ def py_signature(lang, csite, cdecl, what, chosen_left=""):
     if chosen_left == "(declaration-left-in-catch_clause-body)":
         return f"{lang}:*->*:bound-to-declaration-left-in-catch_clause-body"
     if what == "enclosing-class-member":
+        if csite.startswith("nested-class-body"):
+            return f"{lang}:nested-class-body->*:bound-to-member-of-outer-class"
         return f"{lang}:scope-nested-in-class->*:bound-to-enclosing-class-member"
+    if reparented:
+        return f"{lang}:scope-inside-or-naming-a-class-declared-below-a-nested-class->*:not-bound-to-it"
     if "(global-stmt" in csite and "(the-statement-itself)" not in csite and cdecl == "module-declaration" \
             and what == "enclosing-function-declaration":
         return f"{lang}:function-body(global-stmt)->module-declaration:bound-to-enclosing-function-declaration"
     return f"{lang}:{csite}->{cdecl}:bound-to-{what}"
+
+
+def reparent_qualifier(view):
+    from lib.monitors import binding as B
+    rep = B.reparented_classes(view)
+
+    def q(sid):
+        return "(statement-inside-a-class-declared-below-a-nested-class)" if rep & set(view.owner_chain(sid)) else ""
+    return q
 
 
 def chosen_left(view, sym_id):
@@ -304,16 +337,28 @@ def judge_py_program(prog, view, s2, lang="python"):
     meta = prog["meta"]
     res = {"judged": 0, "unresolved": 0, "pairs": set(), "fails": [], "faults": [], "join_ok": 0, "failed_stmts": set()}
     tagged = B.tagged_rows(view)
+    rep = B.reparented_classes(view)
     fields = {}
     for sid, r in view.by_id.items():
         if r.get("operation") == "field_write" and isinstance(r.get("field"), str):
             fields.setdefault(r["field"], []).append(r)
     for tag, o in prog["occ"].items():
+        extra_rows = []
         if o["kind"] == "mcall":
-            continue
-        if o.get("cuse"):
+            # K.L().m("cN", ...): one bare class name per line; lian spreads the line over several statements (field_read / call_stmt /
+            # object_call_stmt): the occurrence is whichever of them carries a symbol of that name
+            if not any(r.get("operation") == "object_call_stmt" for r, a in tagged.get(tag, [])):
+                res["faults"].append(f"method call {tag} at line {o['line'] + 1} has no object_call_stmt row")
+                continue
+            hits = [r for r in view.by_id.values() if r.get("start_row") is not None and int(r["start_row"]) == o["line"]
+                    and s2.ids(int(r["stmt_id"]), o["name"])]
+            extra_rows, hits = hits[1:], hits[:1]
+        elif o.get("cuse"):
             # a class-body read `uN = name`: lian lowers it to field_write(%class, uN, name) carrying the class statement's line
             hits = [r for r in fields.get(tag, []) if r.get("source") == o["name"]]
+        elif o["kind"] == "reveal":
+            hits = [r for r in view.by_id.values() if r.get("operation") == "field_read" and r.get("receiver_object") == o["name"]
+                    and r.get("field") == o["field"] and r.get("start_row") is not None and int(r["start_row"]) == o["line"]]
         elif o["kind"] == "scopestmt":
             hits = [r for r in view.by_id.values() if r.get("operation") == o["stmt"] + "_stmt" and r.get("name") == o["name"]
                     and r.get("start_row") is not None and int(r["start_row"]) == o["line"]]
@@ -336,6 +381,8 @@ def judge_py_program(prog, view, s2, lang="python"):
         row = hits[0]
         sid = int(row["stmt_id"])
         got = s2.ids(sid, o["name"])
+        for r_ in extra_rows:
+            got = got + s2.ids(int(r_["stmt_id"]), o["name"])
         res["judged"] += 1
         res["pairs"].add((o["site"], o["decl"]))
         where = f"{o['name']} at line {o['line'] + 1}"
@@ -343,12 +390,12 @@ def judge_py_program(prog, view, s2, lang="python"):
             res["unresolved"] += 1
             bad = [g for g in got if g[0] is not None and g[0] >= 0]
             if not got or bad:
-                res["failed_stmts"].add(sid)
+                res["failed_stmts"] |= {sid} | {int(r_["stmt_id"]) for r_ in extra_rows}
             if not got:
                 res["fails"].append((f"{lang}:{o['csite']}->none:no-symbol-row", f"no s2space row for {where}", tag))
             elif bad:
                 what = B.describe_choice(view, sid, bad)
-                res["fails"].append((py_signature(lang, o["csite"], "none", what, chosen_left(view, bad[0][0])),
+                res["fails"].append((py_signature(lang, o["csite"], "none", what, chosen_left(view, bad[0][0]), bool(rep & set(view.owner_chain(sid)))),
                                      f"{where} has no visible declaration (NameError at run time) but lian binds it to statement "
                                      f"{bad[0][0]} ({what}: {view.by_id.get(bad[0][0], {}).get('operation')} at line "
                                      f"{B._int(view.by_id.get(bad[0][0], {}).get('start_row', -2)) + 1})", tag))
@@ -360,12 +407,13 @@ def judge_py_program(prog, view, s2, lang="python"):
         wrong = [g for g in got if g[0] not in exp]
         cdecl = o["cdecl"] + B.left_in_block(view, exp, og)
         if not got or wrong:
-            res["failed_stmts"].add(sid)
+            res["failed_stmts"] |= {sid} | {int(r_["stmt_id"]) for r_ in extra_rows}
         if not got:
             res["fails"].append((f"{lang}:{o['csite']}->{cdecl}:no-symbol-row", f"no s2space row for {where}", tag))
         elif wrong:
             what = B.describe_choice(view, sid, wrong)
-            res["fails"].append((py_signature(lang, o["csite"], cdecl, what, chosen_left(view, wrong[0][0])),
+            res["fails"].append((py_signature(lang, o["csite"], cdecl, what, chosen_left(view, wrong[0][0]),
+                                              bool(rep & (set(view.owner_chain(sid)) | set(exp)))),
                                  f"{where} is bound by the language to the {o['decl']} of scope "
                                  f"{meta['scopes'][str(o['owner'])]['name']} (declaration rows {exp}); lian recorded symbol_id {wrong[0][0]} ({what})", tag))
     return res
@@ -412,6 +460,10 @@ def batch_py_single(job):
     for i, p in enumerate(progs):
         name = f"s{i:03d}.py"
         case = {"kind": "py1", "files": {"prog.py": p["text"]}, "meta": p["meta"], "seed": p["seed"], "twin": p["twin"]}
+        if not replay:
+            # statement ids depend on the program's position in its batch; a finding that depends on them (set iteration order)
+            # is replayed by running the very same batch again and reporting this program only
+            case["batch"] = {"seeds": list(seeds), "rseed": job.get("rseed", 0)}
         finish_program(res, "python", p, views.get(name), s2v.get(name), case, judge_py_program)
         if p["twin"] and name in views:
             tname = f"s{i:03d}_r.py"
@@ -421,11 +473,13 @@ def batch_py_single(job):
             sig, text, n = compare_twins("python", views[name], s2rows.get(name, []), views[tname], s2rows.get(tname, []),
                                          set(p["twin"]["lines"]), p["twin"]["old"], p["twin"]["new"],
                                          renamed_fields={k for k in p["twin"]["keys"] if p["meta"]["uses"].get(k, {}).get("cuse")},
-                                         skip_stmts=p.get("failed_stmts", ()))
+                                         skip_stmts=p.get("failed_stmts", ()), qualify=reparent_qualifier(views[name]))
             res["rename_pairs"] += 1
             res["rename_rows"] += n
             if sig:
                 res["fails"].append((sig, text, case))
+    if job.get("only_seed") is not None:
+        res["fails"] = [f for f in res["fails"] if f[2].get("seed") == job["only_seed"]]
     return res
 
 
@@ -1412,10 +1466,12 @@ def run_job(job):
 def main():
     lianrun.prepare_zygote(warm=False)
     chk = common.Check(PROP, rule=(
-        "G-bind programs (nested functions to depth 3, classes, shadowing at every level, parameters shadowing globals, "
-        "global/nonlocal, declarations inside if/else/for/while/try/except blocks; JavaScript let/const/var/function hoisting/"
-        "closures/catch/loops; multi-file Python imports); distinct_nontrivial = distinct (use-site scope kind -> declaration kind) "
-        "pairs judged against the runtime-revealed binding"))
+        "G-bind programs (nested functions to depth 3, classes nested in classes to three levels with names colliding between outer "
+        "class, inner class, enclosing function and module, read in inner-class methods, closures in them and inner class bodies; "
+        "shadowing at every level, parameters shadowing globals, global/nonlocal, declarations inside if/else/for/while/try/except "
+        "blocks; JavaScript let/const/var/function hoisting/closures/catch/loops, classes with static fields and pool-named methods; "
+        "multi-file Python imports incl. package trees 3-4 levels deep with same-named modules and 1-4 leading dots); "
+        "distinct_nontrivial = distinct (use-site scope kind -> declaration kind) pairs judged against the runtime-revealed binding"))
     thorough = chk.tier == "thorough"
     chk.max_samples = 8
     rng = random.Random(chk.seed)
@@ -1424,8 +1480,13 @@ def main():
     if rp:
         with open(rp) as f:
             case = json.load(f)["case"]
+        with open(rp) as f:
+            rsig = json.load(f).get("signature", "")
         if "job" in case and "files" not in case and "template" not in case:
             jobs.append(dict(case["job"]))            # a batch that died: the very same batch again
+        elif case.get("kind") == "py1" and case.get("batch") and rsig.startswith("rename:"):
+            jobs.append({"kind": "py1", "tag": "replaybatch", "seeds": case["batch"]["seeds"], "rseed": case["batch"]["rseed"],
+                         "only_seed": case["seed"]})
         else:
             jobs.append({"kind": case["kind"], "tag": "replay", "replay": case, "lang": case.get("lang"), "index": 0})
     else:
